@@ -237,6 +237,7 @@ def run(ck, facts, tier):
     c08.rule_predicate(ck, facts)
     c08.rule_lcs(ck, facts)
     c08.rule_score_dominance(ck, facts)
+    c08.rule_all_pairs(ck, facts)
     c08.rule_apply(ck, facts)
     c08.rule_addressing(ck, facts)
     c08.rule_fast_path(ck, facts)
